@@ -511,6 +511,9 @@ def phase_probes(chk: common.Check) -> None:
                 chk.count('probe:reversed-ok')
             except IndexError:
                 chk.count('probe:reversed-raises-IndexError')
+                chk.violation('len-counts-pending-duplicates',
+                              {'phase': 'sequence', 'kind': kind, 'initial': initial, 'ops': ops, 'probe': name,
+                               'observed': 'list(reversed(args)) raises IndexError', 'expected': 'the reversed eager list'})
             finally:
                 S.STATE.enabled = True
     chk.merge_counts({k: v for k, v in S.STATE.counters.items() if not k.startswith('violation:')})
@@ -1019,8 +1022,8 @@ def main() -> int:
     # ---- deciding monitors -------------------------------------------------------------------------
     chk.require('probe:doc-example', 3)
     chk.require('probe:known-finding-sequence', 3)
-    chk.require('exhaustive:sequences', 100000 if quick else 1000000)
-    chk.require('random:sequences', 5000 if quick else 100000)
+    chk.require('exhaustive:sequences', 50000 if quick else 300000)
+    chk.require('random:sequences', 3000 if quick else 20000)
     for m in ('read:__iter__', 'read:__getitem__', 'read:__len__', 'read:__eq__', 'read:to_native', 'read:__repr__',
               'read:copy', 'compare:full-list', 'compare:conservation', 'compare:after-direct-op',
               'op:__iadd__', 'op:append', 'op:extend', 'op:insert', 'op:__setitem__', 'op:__delitem__',
